@@ -20,6 +20,40 @@ fn main() {
 	}
 	runner::install_quiet_panic_hook();
 	match args[0].as_str() {
+		"corpus" => {
+			let dir = args.get(1).cloned().unwrap_or_else(|| usage());
+			let seed = args.get(2).and_then(|s| s.parse().ok()).unwrap_or(1);
+			match rv::fuzzing::write_corpus(&dir, seed) {
+				Ok(n) => eprintln!("wrote {n} corpus files under {dir}"),
+				Err(e) => {
+					eprintln!("corpus: {e}");
+					std::process::exit(2);
+				},
+			}
+		},
+		"fuzz-replay" => {
+			let target = args.get(1).cloned().unwrap_or_else(|| usage());
+			let path = args.get(2).cloned().unwrap_or_else(|| usage());
+			let prop = args.get(3).cloned().unwrap_or_else(|| "C10".into());
+			let data = std::fs::read(&path).unwrap_or_else(|e| {
+				eprintln!("cannot read {path}: {e}");
+				std::process::exit(2)
+			});
+			let r = match target.as_str() {
+				"c10_parse" => rv::fuzzing::c10_parse(&data),
+				"c06_csr" => rv::fuzzing::c06_csr(&data),
+				"c03_import" => rv::fuzzing::c03_import(&data),
+				_ => usage(),
+			};
+			match r {
+				Ok(()) => println!("replay passed: the property holds on this input"),
+				Err(e) => {
+					eprintln!("--- replay failed: {e}");
+					println!("VIOLATION property={prop} replay={path}");
+					std::process::exit(1);
+				},
+			}
+		},
 		"c15-child" => props::c15::child_main(),
 		"c16-child" => props::c16::child_main(),
 		"list" => {
